@@ -175,10 +175,18 @@ func runC18(t *core.Tape, st *core.Stats) *core.Violation {
 			continue
 		}
 
-		// snapshot every side, mutate one, compare the others
+		// snapshot the other sides, apply a batch of 1..3 mutations to one side without
+		// reading anybody in between (a read makes a soft resource tidy its own state),
+		// then compare the others with their snapshots
+		k := t.Draw(len(sides))
+		target := sides[k]
 		snaps := make([]string, len(sides))
 
 		for j, s := range sides {
+			if j == k {
+				continue
+			}
+
 			var p *core.Panic
 
 			snaps[j], p = observe(s.res)
@@ -187,30 +195,43 @@ func runC18(t *core.Tape, st *core.Stats) *core.Violation {
 			}
 		}
 
-		k := t.Draw(len(sides))
-		target := sides[k]
+		batch := []int{1, 1, 1, 2, 3}[t.Draw(5)]
+		descs, cls := "", ""
 
-		desc, cls, shared, p := mutate(t, st, ts, target)
-		if p != nil {
-			return viol(p18, "no-panic", p.Func, "mutate:"+cls+":"+p.Class, "%s on the %s (%s) panicked: %s", desc, target.name, implName(target.soft), p.Value)
+		for bi := 0; bi < batch; bi++ {
+			desc, c, shared, p := mutate(t, st, ts, target)
+			if p != nil {
+				return viol(p18, "no-panic", p.Func, "mutate:"+c+":"+p.Class, "%s on the %s (%s) panicked: %s", desc, target.name, implName(target.soft), p.Value)
+			}
+
+			if desc == "" {
+				continue
+			}
+
+			nmut++
+			st.Steps++
+
+			if shared {
+				interesting++
+			}
+
+			if c == "type-edit-via-GetType" && !target.soft {
+				target.edited = true
+			}
+
+			if descs != "" {
+				descs += "; "
+			}
+
+			descs += desc
+			cls = c
+
+			t.Logf("mutate %s: %s", target.name, desc)
 		}
 
-		if desc == "" {
+		if descs == "" {
 			continue
 		}
-
-		nmut++
-		st.Steps++
-
-		if shared {
-			interesting++
-		}
-
-		if cls == "type-edit-via-GetType" && !target.soft {
-			target.edited = true
-		}
-
-		t.Logf("mutate %s: %s", target.name, desc)
 
 		for j, s := range sides {
 			if j == k {
@@ -226,7 +247,7 @@ func runC18(t *core.Tape, st *core.Stats) *core.Violation {
 				t.Logf("  %s before: %s", s.name, snaps[j])
 				t.Logf("  %s after:  %s", s.name, now)
 
-				return viol(p18, "independent", implName(sides[0].soft)+"-source", cls, "%s applied to the %s changed what is read from the %s\n    before: %s\n    after:  %s", desc, target.name, s.name, snaps[j], now)
+				return viol(p18, "independent", implName(sides[0].soft)+"-source", cls, "%s applied to the %s changed what is read from the %s\n    before: %s\n    after:  %s", descs, target.name, s.name, snaps[j], now)
 			}
 		}
 	}
